@@ -368,7 +368,11 @@ fn run(ctx: &RunCtx) -> Report {
     let sim = Sim::new(ctx.seed, net.clone());
     sim.set_snap_mode(SnapMode::Every);
     let rawnet = RawNet::new();
-    let n_raw = rng.usize(2, 14);
+    // 1 run in 6: a *held stream* - the application opens a get stream and does not read from it for a
+    // while (a slow consumer) while its other calls run; 20..70 peers all hold values for that target and
+    // are all in the bootstrap list, so that many values queue up on the undrained stream
+    let held_stream = rng.chance(1, 6);
+    let n_raw = if held_stream { rng.usize(20, 70) } else { rng.usize(2, 14) };
     let n_real = rng.usize(0, 3);
     let mut addrs = vec![];
     // object pool (few targets so that calls collide)
@@ -385,10 +389,18 @@ fn run(ctx: &RunCtx) -> Report {
         let mut p = Peer::new(rng.id(), addr);
         p.k = *rng.pick(&[4usize, 8, 20]);
         p.delay = rng.range(0, 300) * MS;
-        if rng.chance(1, 2) {
+        if rng.chance(1, 2) || held_stream {
             p.immutable.insert(krpc::immutable_target(&values[0]), values[0].clone());
             p.mutable.insert(stored_item.target(), stored_item.clone());
             p.peers.insert(hashes[0], vec![SocketAddrV4::new(priv_ip(900 + i), 9)]);
+            if held_stream {
+                let t = 1_767_225_600_000_000u64 + i as u64;
+                let k = krpc::signing_key([i as u8; 32]);
+                p.signed.insert(hashes[0], vec![(k.verifying_key().to_bytes(), t, krpc::sign(&k, &krpc::signed_announce_signable(&hashes[0], t)))]);
+            }
+        }
+        if held_stream {
+            p.delay = rng.range(0, 120) * MS;
         }
         p.put_reply = match rng.below(6) {
             0 => PutReply::Silent,
@@ -456,7 +468,7 @@ fn run(ctx: &RunCtx) -> Report {
     // caller
     let mut cspec = NodeSpec::new(priv_ip(1), 6881);
     cspec.server_mode = rng.chance(1, 3);
-    cspec.bootstrap = addrs.iter().map(|a| a.to_string()).take(rng.usize(1, 4)).collect();
+    cspec.bootstrap = addrs.iter().map(|a| a.to_string()).take(if held_stream { addrs.len() } else { rng.usize(1, 4) }).collect();
     if faulty && rng.chance(1, 3) {
         cspec.clock_ppm = rng.range(0, 100_000) as i64 - 50_000;
     }
@@ -490,6 +502,12 @@ fn run(ctx: &RunCtx) -> Report {
     let mut stall_total = 0u64;
     // a guaranteed "lookup of another kind is active on the put's target" pattern in some runs
     let force_overlap = rng.chance(1, 4);
+    // ... and in some runs two put_mutable calls for one key right after each other, the second with a
+    // seq around the first's and a cas around it (the local conflict rules must not strand a caller)
+    let force_mutable_pair = !force_overlap && n_calls >= 2 && rng.chance(1, 4);
+    if force_mutable_pair {
+        report.probe("forced_put_mutable_pairs", 1);
+    }
     for i in 0..n_calls {
         let mut r = Rng::new(crate::rng::key(ctx.seed, &[crate::rng::tag("call"), i as u64]));
         if !ctx.enabled(i) {
@@ -497,10 +515,34 @@ fn run(ctx: &RunCtx) -> Report {
         }
         let at = t_first + r.range(0, 3000) * MS * (i as u64).min(3) / 3 + if r.chance(1, 3) { 0 } else { r.range(0, 600) * MS };
         last_issue = last_issue.max(at);
-        let j = r.usize(0, 1);
+        let mut j = r.usize(0, 1);
+        let mut at = at;
+        if force_mutable_pair && i < 2 {
+            j = 0;
+            if i == 1 {
+                at = t_first + r.range(0, 700) * MS;
+            } else {
+                at = t_first;
+            }
+            last_issue = last_issue.max(at);
+        }
         let mut kind = r.below(12);
         if force_overlap && i < 2 {
             kind = if i == 0 { 7 } else { 0 };
+        }
+        if force_mutable_pair && i < 2 {
+            kind = 1;
+        }
+        let held = held_stream && i == 0;
+        if held {
+            kind = *r.pick(&[5u64, 6, 9]);
+            j = 0;
+            at = t_first;
+        }
+        // the application starts reading 1.5 - 6 s after it opened the stream
+        let release_at = at + r.range(1500, 6000) * MS;
+        if held {
+            last_issue = last_issue.max(release_at);
         }
         let (label, target): (&str, [u8; 20]) = match kind {
             0 => ("put_immutable", krpc::immutable_target(&values[if force_overlap && i < 2 { 0 } else { j }])),
@@ -516,19 +558,31 @@ fn run(ctx: &RunCtx) -> Report {
             10 => ("get_mutable_most_recent", krpc::mutable_target(&keys[j].verifying_key().to_bytes(), None)),
             _ => ("bootstrapped", [0; 20]),
         };
-        plan.push(format!("call[{i}] t={:.3}s {label} target={}", at as f64 / SEC as f64, hex8(&target)));
+        plan.push(format!("call[{i}] t={:.3}s {label} target={}{}", at as f64 / SEC as f64, hex8(&target), if held { format!(" (stream not read before t={:.3}s)", release_at as f64 / SEC as f64) } else { String::new() }));
         let ops = ops.clone();
         let (values, keys, hashes) = (values.clone(), keys.clone(), hashes.clone());
         let vj = if force_overlap && i < 2 { 0 } else { j };
-        let seq = 4 + i as i64;
+        // put_mutable arguments: seqs and cas values collide across calls, two different values
+        let seq = if r.chance(1, 2) { 4 + i as i64 } else { r.range(3, 7) as i64 };
+        let cas: Option<i64> = match r.below(4) {
+            0 | 1 => None,
+            _ => Some(r.range(3, 8) as i64),
+        };
+        let mval: &'static [u8] = if r.chance(1, 2) { b"mv" } else { b"mw" };
+        if kind == 1 {
+            plan.push(format!("         put_mutable seq={seq} cas={cas:?} value={}", String::from_utf8_lossy(mval)));
+        }
         sim.at(at, move |sim| {
             let pk = keys[j].verifying_key().to_bytes();
             let op = match kind {
                 0 => sim.put_immutable(caller, values[vj].clone()),
-                1 => sim.put_mutable(caller, dht::MutableItem::new(&keys[j], b"mv", seq, None), None),
+                1 => sim.put_mutable(caller, dht::MutableItem::new(&keys[j], mval, seq, None), cas),
                 2 => sim.announce_peer(caller, hashes[j], Some(77)),
                 3 => sim.announce_signed_peer(caller, hashes[j], [9u8; 32]),
                 4 => sim.get_immutable(caller, krpc::immutable_target(&values[j])),
+                5 if held => sim.get_mutable_held(caller, pk, None, release_at),
+                6 if held => sim.get_peers_held(caller, hashes[j], release_at),
+                9 if held => sim.get_signed_peers_held(caller, hashes[j], release_at),
                 5 => sim.get_mutable(caller, pk, None, None),
                 6 => sim.get_peers(caller, hashes[j]),
                 7 => sim.find_node(caller, krpc::immutable_target(&values[vj])),
@@ -590,6 +644,18 @@ fn run(ctx: &RunCtx) -> Report {
     report.probe("calls", ops.borrow().len() as u64);
     if force_overlap {
         report.probe("find_node_then_put_same_target", 1);
+    }
+    if held_stream {
+        report.probe("held_stream_runs", 1);
+        let held_items = ops.borrow().iter().find(|o| o.0 == 0).and_then(|o| sim.with_op(o.3, |x| match &x.outcome {
+            Some(Outcome::Peers(v)) => Some(v.len()),
+            Some(Outcome::Mutable(v)) => Some(v.len()),
+            Some(Outcome::SignedPeers(v)) => Some(v.len()),
+            _ => None,
+        }));
+        if held_items.unwrap_or(0) >= 17 {
+            report.probe("held_stream_with_17_or_more_queued_items", 1);
+        }
     }
     let _ = Value::Int(0);
     report.plan_dump = Some(plan.join("\n"));
